@@ -43,6 +43,9 @@ const (
 	tyF64s // []float64 (as bit patterns)
 	tyU32s // [N]uint32 (elements carried as uint64 below 2^32)
 	tyStrs // ...string: a list of byte strings (carried like a key set, in order)
+	tyIface  // interface{} as Interface() builds them (Val.iface)
+	tyIfaces // []interface{} (Val.iface (.arr …))
+	tyIMap   // map[string]interface{} (Val.iface (.obj …))
 )
 
 // functions translated, in dependency order (callees first is not required)
@@ -59,6 +62,7 @@ var goSrcFuncs = []string{
 	"ParsedJson.get_current_loc", "ParsedJson.write_tape", "ParsedJson.writeTapeTagVal", "ParsedJson.writeTapeTagValFlags",
 	"ParsedJson.write_tape_s64", "ParsedJson.write_tape_double", "ParsedJson.annotate_previousloc", "parseString", "addNumber",
 	"min", "max", "fmtF", "appendFloatF", "appendFloat", "Serializer.indexString", "Object.FindKey", "Object.FindPath", "Iter.Object", "Iter.Array", "Iter.Root", "Iter.Root#self", "Iter.FindElement", "Array.AsString", "Array.AsStringCvt", "Object.Parse", "Elements.MarshalJSONBuffer", "Iter.SetString", "Iter.MarshalJSON", "Array.MarshalJSON", "Elements.MarshalJSON", "Type.String", "Tag.String", "FloatFlags.Contains", "ParsedJson.stringAt", "Iter.String", "floatToString", "Iter.StringCvt", "Object.NextElement",
+	"Object.Map", "Array.Interface", "Iter.Interface",
 }
 
 // functions in which constant expressions are folded (as the compiler does) before printing; the functions translated
@@ -186,6 +190,8 @@ type gsTr struct {
 	ptrNil   []string        // per pointer argument of the call being translated: the expression "this argument is nil"
 	skipStmts []string       // expression statements left out wherever they occur (waits on goroutines)
 	arr8   map[string]bool   // locals declared as [8]byte
+	nilTarget string         // while translating `x, err := f(nil)`: x
+	mapParam map[string]bool // parameters of type map[string]interface{} (may be nil at entry: hidden flag `<name>==nil`)
 }
 
 func gsDie(n ast.Node, format string, a ...interface{}) {
@@ -215,8 +221,15 @@ func tyOfTypeExpr(e ast.Expr) gty {
 		case "uint32":
 			return tyU32
 		}
+	case *ast.InterfaceType:
+		if t.Methods == nil || len(t.Methods.List) == 0 {
+			return tyIface
+		}
 	case *ast.ArrayType:
 		if t.Len == nil {
+			if _, ok := t.Elt.(*ast.InterfaceType); ok && tyOfTypeExpr(t.Elt) == tyIface {
+				return tyIfaces
+			}
 			if id, ok := t.Elt.(*ast.Ident); ok {
 				switch id.Name {
 				case "byte":
@@ -235,6 +248,9 @@ func tyOfTypeExpr(e ast.Expr) gty {
 	case *ast.MapType:
 		if k, ok := t.Key.(*ast.Ident); ok && k.Name == "string" && nows(src(t.Value)) == "struct{}" {
 			return tyKeys
+		}
+		if k, ok := t.Key.(*ast.Ident); ok && k.Name == "string" && tyOfTypeExpr(t.Value) == tyIface {
+			return tyIMap
 		}
 	case *ast.StarExpr:
 		if id, ok := t.X.(*ast.Ident); ok && (id.Name == "Element" || id.Name == "Elements" || id.Name == "Iter" || id.Name == "Object" || id.Name == "Array") {
@@ -446,6 +462,15 @@ func (t *gsTr) expr(e ast.Expr, want gty) (string, gty) {
 			}
 			if want == tyStrs {
 				return ".nilK", tyStrs
+			}
+			if want == tyIface {
+				return ".nilV", tyIface
+			}
+			if want == tyIfaces {
+				return ".nilA", tyIfaces
+			}
+			if want == tyIMap {
+				return ".nilM", tyIMap
 			}
 			return "(.bool false /- nil -/)", tyErr
 		}
@@ -735,6 +760,20 @@ func (t *gsTr) expr(e ast.Expr, want gty) (string, gty) {
 				return ".nilU", tyF64s
 			case tyStrs:
 				return ".nilK", tyStrs
+			case tyIfaces:
+				return ".nilA", tyIfaces
+			}
+		}
+		if id, ok := x.Fun.(*ast.Ident); ok && id.Name == "make" && len(x.Args) == 1 && tyOfTypeExpr(x.Args[0]) == tyIMap {
+			return ".nilM", tyIMap // make(map[string]interface{}): an empty map
+		}
+		if id, ok := x.Fun.(*ast.Ident); ok && id.Name == "append" && len(x.Args) == 2 && !x.Ellipsis.IsValid() {
+			if a, aty := t.exprTry(x.Args[0]); aty == tyIfaces {
+				b, bty := t.expr(x.Args[1], tyIface)
+				if bty != tyIface {
+					gsDie(e, "appended element type")
+				}
+				return fmt.Sprintf("(.pushA %s %s)", a, b), tyIfaces
 			}
 		}
 		if id, ok := x.Fun.(*ast.Ident); ok && id.Name == "append" && len(x.Args) == 2 && !x.Ellipsis.IsValid() {
@@ -855,6 +894,20 @@ func (t *gsTr) expr(e ast.Expr, want gty) (string, gty) {
 			return fmt.Sprintf("(.le64 %s)", a), tyU64
 		}
 		if sel, ok := x.Fun.(*ast.SelectorExpr); ok && sel.Sel.Name == "Type" && len(x.Args) == 0 {
+			if inner, ok := sel.X.(*ast.SelectorExpr); ok && inner.Sel.Name == "t" {
+				// <iterator>.t.Type(): the same method of Tag, on a field
+				if id, isId := inner.X.(*ast.Ident); isId && t.iters[id.Name] {
+					fd := t.p.funcs["Tag.Type"]
+					if fd == nil || nows(src(fd.Body)) != "{returnTagToType[t]}" {
+						gsDie(e, "Tag.Type has an unexpected body")
+					}
+					a, aty := t.expr(inner, tyU8)
+					if aty != tyU8 {
+						gsDie(e, "Tag.Type operand")
+					}
+					return fmt.Sprintf("(.tbl \"TagToType\" %s)", a), tyU8
+				}
+			}
 			if inner, ok := sel.X.(*ast.CallExpr); ok {
 				// <call returning a Tag>.Type(): func (t Tag) Type() Type { return TagToType[t] }, pinned by the shape check
 				fd := t.p.funcs["Tag.Type"]
@@ -1269,6 +1322,17 @@ func (t *gsTr) binary(x *ast.BinaryExpr, want gty) (string, gty) {
 				return fmt.Sprintf("(.bool %v /- %s: a receiver that is being executed on is not nil -/)", x.Op == token.NEQ, nows(src(x))), tyBool
 			}
 		}
+		if id, ok := x.X.(*ast.Ident); ok && t.locals[id.Name] == tyIMap && t.mapParam[id.Name] {
+			if n, ok := x.Y.(*ast.Ident); ok && n.Name == "nil" {
+				// whether the caller passed a nil map: a named boolean input of the function (`dst = make(…)` clears it)
+				t.aliasParams[id.Name+"==nil"] = true
+				v := fmt.Sprintf("(.v %s)", strconv.Quote(id.Name+"==nil"))
+				if x.Op == token.NEQ {
+					v = "(.not " + v + ")"
+				}
+				return v, tyBool
+			}
+		}
 		if id, ok := x.X.(*ast.Ident); ok && t.kinds[id.Name] != "" && id.Name != t.recv && !t.readonly[id.Name] {
 			if n, ok := x.Y.(*ast.Ident); ok && n.Name == "nil" {
 				// whether the caller passed nil: a named boolean input of the function (`dst = &Element{}` clears it)
@@ -1494,6 +1558,16 @@ func (t *gsTr) callArgs(call *ast.CallExpr, recv, callee string) (string, string
 						continue
 					}
 				}
+				if nid, isNil := a.(*ast.Ident); isNil && nid.Name == "nil" && t.locals["nil"] == tyUnk && (kind == "Object" || kind == "Array") && t.nilTarget != "" {
+					// a nil destination: the callee allocates (`dst = &Object{}`); here the fresh struct is a variable of the
+					// caller, zeroed before the call and named after the variable that receives the pointer
+					n := t.nilTarget + "#new"
+					t.kinds[n] = kind
+					t.pre = append(t.pre, fmt.Sprintf(".assign %s (.int 0)", strconv.Quote(n+".off")), fmt.Sprintf(".assign %s (.int 0)", strconv.Quote(n+".lim")))
+					ptrs = append(ptrs, n)
+					t.ptrNil = append(t.ptrNil, "(.bool true)")
+					continue
+				}
 				id, isId := a.(*ast.Ident)
 				if !isId || t.kinds[id.Name] != kind {
 					gsDie(a, "pointer argument must be a %s variable", kind)
@@ -1523,6 +1597,20 @@ func (t *gsTr) callArgs(call *ast.CallExpr, recv, callee string) (string, string
 		if pn := strings.TrimSuffix(hp, "==nil"); pn != hp {
 			// whether the pointer argument bound to <param> is nil
 			pi, val := 0, ""
+			ai := 0
+			for _, f := range cfd.Type.Params.List {
+				for _, nm := range f.Names {
+					if nm.Name == pn && tyOfTypeExpr(f.Type) == tyIMap && ai < len(call.Args) {
+						// a map argument: nil iff it is written `nil` (any other map expression is outside the subset)
+						if id, isId := call.Args[ai].(*ast.Ident); isId && id.Name == "nil" {
+							val = "(.bool true) /- " + hp + " -/"
+						} else {
+							gsDie(call, "map argument must be nil")
+						}
+					}
+					ai++
+				}
+			}
 			for _, f := range cfd.Type.Params.List {
 				for _, nm := range f.Names {
 					_, isPtr := ptrKind(f.Type)
@@ -2104,7 +2192,34 @@ func (t *gsTr) stmt0(s ast.Stmt, ind string) string {
 		}
 		if len(x.Rhs) == 1 {
 			if call, isCall := x.Rhs[0].(*ast.CallExpr); isCall && (x.Tok == token.ASSIGN || x.Tok == token.DEFINE) {
+				// dst[name], err = tmp.Interface(): the operands of the index expression are evaluated first, then the call,
+				// then the map entry and err are assigned (in that order, also when err != nil)
+				if ix, isIx := x.Lhs[0].(*ast.IndexExpr); isIx && x.Tok == token.ASSIGN && len(x.Lhs) == 2 {
+					if m, isId := ix.X.(*ast.Ident); isId && t.locals[m.Name] == tyIMap {
+						recv, callee, ptrs, args, rtys, ok := t.methodCall(call)
+						if !ok || len(rtys) != 2 || rtys[0] != tyIface {
+							gsDie(s, "map element assignment from a call")
+						}
+						k, kty := t.exprBytes(ix.Index)
+						if kty != tyBytes {
+							gsDie(s, "map key")
+						}
+						ename, ety := t.lvalue(x.Lhs[1])
+						if ety != rtys[1] {
+							gsDie(s, "assignment types differ")
+						}
+						t.ntemp++
+						tmp := fmt.Sprintf("#c%d", t.ntemp)
+						return fmt.Sprintf(".callAssign [%s, %s] %s %s %s [%s],\n%s.mapSetV %s %s (.v %s)", strconv.Quote(tmp), strconv.Quote(ename), strconv.Quote(recv), strconv.Quote(callee), leanStrList(ptrs), strings.Join(args, ", "),
+							ind, strconv.Quote(m.Name), k, strconv.Quote(tmp))
+					}
+				}
+				t.nilTarget = ""
+				if id, isId := x.Lhs[0].(*ast.Ident); isId && x.Tok == token.DEFINE && id.Name != "_" {
+					t.nilTarget = id.Name
+				}
 				if recv, callee, ptrs, args, rtys, ok := t.methodCall(call); ok {
+					t.nilTarget = ""
 					if len(rtys) != len(x.Lhs) {
 						gsDie(s, "result arity")
 					}
@@ -2174,7 +2289,7 @@ func (t *gsTr) stmt0(s ast.Stmt, ind string) string {
 				dw = tyInt // the default type of an untyped integer constant
 			}
 			r, ty := t.expr(x.Rhs[0], dw)
-			if ty != tyInt && ty != tyU64 && ty != tyU8 && ty != tyBool && ty != tyBytes && ty != tyF64 && ty != tyU32 && ty != tyI64s && ty != tyU64s && ty != tyF64s && ty != tyStrs {
+			if ty != tyInt && ty != tyU64 && ty != tyU8 && ty != tyBool && ty != tyBytes && ty != tyF64 && ty != tyU32 && ty != tyI64s && ty != tyU64s && ty != tyF64s && ty != tyStrs && ty != tyIface && ty != tyIfaces && ty != tyIMap {
 				gsDie(s, "type of defined variable")
 			}
 			if _, shadow := t.outer[id.Name]; shadow {
@@ -2286,6 +2401,9 @@ func (t *gsTr) stmt0(s ast.Stmt, ind string) string {
 			r, rty := t.expr(x.Rhs[0], ty)
 			if rty != ty {
 				gsDie(s, "assignment types differ")
+			}
+			if ty == tyIMap && t.mapParam[name] && t.aliasParams[name+"==nil"] {
+				return fmt.Sprintf(".assign %s (.bool false),\n%s.assign %s %s", strconv.Quote(name+"==nil"), ind, strconv.Quote(name), r)
 			}
 			return fmt.Sprintf(".assign %s %s", strconv.Quote(name), r)
 		case token.ADD_ASSIGN, token.SUB_ASSIGN, token.OR_ASSIGN, token.AND_ASSIGN:
@@ -2527,7 +2645,7 @@ func (t *gsTr) stmt0(s ast.Stmt, ind string) string {
 				fmt.Sprintf(".assign %s (.int 0)", strconv.Quote(n+".lim"))}, ",\n"+ind)
 		}
 		ty := tyOfTypeExpr(vs.Type)
-		zero := map[gty]string{tyInt: "(.int 0)", tyU64: "(.u64 0)", tyU8: "(.u8 0)", tyBool: "(.bool false)", tyBytes: ".nilB", tyErr: "(.bool false /- nil -/)"}[ty]
+		zero := map[gty]string{tyInt: "(.int 0)", tyU64: "(.u64 0)", tyU8: "(.u8 0)", tyBool: "(.bool false)", tyBytes: ".nilB", tyErr: "(.bool false /- nil -/)", tyIface: ".nilV", tyIfaces: ".nilA"}[ty]
 		if at, ok := vs.Type.(*ast.ArrayType); ok && at.Len != nil {
 			if el, ok := at.Elt.(*ast.Ident); ok && (el.Name == "uint8" || el.Name == "byte") {
 				ty, zero = tyBytes, fmt.Sprintf("(.zerosB %s)", t.p.eval(at.Len, 0).String()) // a byte array used through slices of it
@@ -2621,10 +2739,24 @@ func (t *gsTr) stmt0(s ast.Stmt, ind string) string {
 		if x.Cond == nil {
 			return fmt.Sprintf(".loop %s", body)
 		}
+		savedPre := t.pre
+		t.pre = nil
 		c, ty := t.expr(x.Cond, tyBool)
 		if ty != tyBool {
 			gsDie(s, "loop condition type")
 		}
+		if len(t.pre) > 0 {
+			// the condition makes calls: `for c { body }` is `for { if !c { break }; body }`, the calls made on every round
+			hoisted := strings.Join(t.pre, ",\n"+ind+"  ")
+			t.pre = savedPre
+			rest := strings.TrimPrefix(strings.TrimPrefix(body, "[\n"), ind+"  ")
+			if body == "[]" {
+				rest = "]"
+				return fmt.Sprintf(".loop [\n%s  %s,\n%s  .ite %s [] [\n%s    .brk]]", ind, hoisted, ind, c, ind)
+			}
+			return fmt.Sprintf(".loop [\n%s  %s,\n%s  .ite %s [] [\n%s    .brk],\n%s  %s", ind, hoisted, ind, c, ind, ind, rest)
+		}
+		t.pre = savedPre
 		return fmt.Sprintf(".while %s %s", c, body)
 	case *ast.BranchStmt:
 		if x.Label != nil {
@@ -2659,8 +2791,31 @@ func (t *gsTr) stmt0(s ast.Stmt, ind string) string {
 					if len(mine) != len(rtys) {
 						gsDie(s, "returned call arity")
 					}
+					boxed := false
 					for k := range mine {
-						if mine[k] != rtys[k] {
+						if mine[k] == tyIface && rtys[k] != tyIface && rtys[k] != tyIfaces && rtys[k] != tyIMap {
+							boxed = true
+						}
+					}
+					if boxed {
+						// return f() where a result of f becomes an interface{}: the results are taken, converted, returned
+						var tgts, vals []string
+						for k := range mine {
+							t.ntemp++
+							tmp := fmt.Sprintf("#r%d", t.ntemp)
+							tgts = append(tgts, tmp)
+							v := fmt.Sprintf("(.v %s)", strconv.Quote(tmp))
+							if mine[k] == tyIface && rtys[k] != tyIface && rtys[k] != tyIfaces && rtys[k] != tyIMap {
+								v = boxExpr(s, v, rtys[k])
+							} else if mine[k] != rtys[k] {
+								gsDie(s, "returned call types")
+							}
+							vals = append(vals, v)
+						}
+						return fmt.Sprintf(".callAssign %s %s %s %s [%s],\n%s.ret [%s]", leanStrList(tgts), strconv.Quote(recv), strconv.Quote(callee), leanStrList(ptrs), strings.Join(args, ", "), ind, strings.Join(vals, ", "))
+					}
+					for k := range mine {
+						if mine[k] != rtys[k] && !(mine[k] == tyIface && (rtys[k] == tyIfaces || rtys[k] == tyIMap)) {
 							gsDie(s, "returned call types")
 						}
 					}
@@ -2687,6 +2842,11 @@ func (t *gsTr) stmt0(s ast.Stmt, ind string) string {
 		}
 		for k, r := range x.Results {
 			e, ty := t.expr(r, rtys[k])
+			if rtys[k] == tyIface && (ty == tyIfaces || ty == tyIMap) {
+				ty = tyIface // a slice / map as an interface{}: the same value here
+			} else if rtys[k] == tyIface && ty != tyIface {
+				e, ty = boxExpr(s, e, ty), tyIface
+			}
 			if ty != rtys[k] {
 				gsDie(r, "return type")
 			}
@@ -2815,6 +2975,15 @@ func (t *gsTr) stmt0(s ast.Stmt, ind string) string {
 }
 
 // stmtText: the statement's source on one line, comment lines dropped
+// boxExpr: a scalar converted to interface{} (its dynamic type is the static type of the expression)
+func boxExpr(n ast.Node, e string, ty gty) string {
+	k := map[gty]string{tyU64: ".uint", tyInt: ".int", tyF64: ".float", tyBytes: ".str", tyBool: ".bool"}[ty]
+	if k == "" {
+		gsDie(n, "conversion to interface{}")
+	}
+	return fmt.Sprintf("(.box %s %s)", k, e)
+}
+
 func stmtText(st ast.Stmt) string {
 	var keep []string
 	for _, l := range strings.Split(src(st), "\n") {
@@ -2957,8 +3126,14 @@ func genGoSrc(p *pkgInfo, out string) {
 					t.locals[nm.Name] = tyFunc
 					continue
 				}
-				if ty != tyInt && ty != tyU64 && ty != tyU8 && ty != tyBool && ty != tyBytes && ty != tyF64 && ty != tyKeys && ty != tyStrs {
+				if ty != tyInt && ty != tyU64 && ty != tyU8 && ty != tyBool && ty != tyBytes && ty != tyF64 && ty != tyKeys && ty != tyStrs && ty != tyIMap {
 					die("gosrc: %s: parameter %s has an unsupported type", fn, nm.Name)
+				}
+				if ty == tyIMap {
+					if t.mapParam == nil {
+						t.mapParam = map[string]bool{}
+					}
+					t.mapParam[nm.Name] = true
 				}
 				t.locals[nm.Name] = ty
 				params = append(params, nm.Name)
